@@ -160,6 +160,20 @@ class ClassTable:
             return self.lookup_in(imp[1], imp[2], _depth + 1)
         return None
 
+    def lookup_function(self, module, name, _depth=0):
+        """A module-level function of the repository visible under ``name`` in ``module`` (defined there or
+        imported with `from ... import`), else None."""
+        if _depth > 6 or module is None:
+            return None
+        for s_ in module.tree.body:
+            if isinstance(s_, (ast.FunctionDef, ast.AsyncFunctionDef)) and s_.name == name:
+                return s_
+        imp = self.imports_of(module).get(name)
+        if imp and imp[0] == "from" and imp[1] in self.repo.modules:
+            src = self.repo.module(imp[1])
+            return self.lookup_function(src, imp[2], _depth + 1)
+        return None
+
     def lookup_in(self, modname, name, _depth=0):
         if _depth > 6:
             return None
